@@ -41,6 +41,14 @@ def case(draw):
     n = draw(st.sampled_from([1, 1, 1, 2, 3, 4]))
     pats = [draw(rxgen.pattern_ast) for _ in range(n)]
     line = draw(rxgen.line_for(pats))
+    # a long prefix: the match (if any) then starts beyond 256 characters / bytes.  The documented depth limit bounds the
+    # recursion of ONE attempt, not the position of the attempt in the line.
+    if draw(st.integers(0, 5)) == 0:
+        pool = []
+        for a in pats:
+            rxgen.chars_of(a, pool)
+        padc = draw(st.sampled_from(["-", "-", "\u03c0", " "] + [ch for ch in pool if ch != "\n"][:3]))
+        line = padc * draw(st.sampled_from([200, 254, 255, 256, 257, 300, 520])) + line
     return {"pats": pats, "line": line, "icase": draw(st.booleans()), "notbol": draw(st.sampled_from([False, False, True])),
             "noteol": draw(st.sampled_from([False, False, True]))}
 
@@ -179,6 +187,10 @@ def run_case(env, c):
         cl.append("depth_limit_hit")
     cl.append("found" if info.get("found") else "notfound")
     cl.append("set_of_%d" % len(nodes))
+    if info.get("found") and info.get("span", (0, 0))[0] >= 256:
+        cl.append("match_starts_beyond_256")
+    elif len(c["line"]) >= 200:
+        cl.append("long_line")
     lits = []
     for j in c["pats"]:
         rxgen.chars_of(j, lits)
